@@ -267,6 +267,68 @@ func c06ChooseEdit(r *vx.Run, text string, docFirst, docLast int, kinds []string
 			e.Class = "remainder-after-hyphen-join-rebased"
 		}
 		return e
+	case "splitnotice":
+		// compound edit: the LAST word of a line is split (its remainder stands alone on the next
+		// line, so the continuation word is ended by a line break, not a blank) and a notice is put
+		// on a line of its own below; the notice must be reported on exactly its line
+		type cand struct{ line, start, end int }
+		var cands []cand
+		for i, l := range lines {
+			if !el[i] || refIsNoticeLine(l) {
+				continue
+			}
+			t := strings.TrimRight(l, " \t\r")
+			fs := strings.Fields(t)
+			if len(fs) < 2 {
+				continue
+			}
+			f := fs[len(fs)-1]
+			allLetters := true
+			for _, r := range f {
+				if !(r >= 'a' && r <= 'z' || r >= 'A' && r <= 'Z') {
+					allLetters = false
+				}
+			}
+			if allLetters && len(f) >= 4 && len(t) == len(l) {
+				cands = append(cands, cand{i, len(l) - len(f), len(l)})
+			}
+		}
+		if len(cands) == 0 {
+			return c06Edit{}
+		}
+		cd := cands[pick(len(cands), "word")]
+		sp := 1 + r.Choose(2, "split-point")
+		tmpl := c06Notices[r.Choose(2, "template")]
+		gap := r.Choose(3, "lines-below") // notice after 0, 1 or 2 further lines (or at the end)
+		l := lines[cd.line]
+		nl := append([]string(nil), lines[:cd.line]...)
+		nl = append(nl, l[:cd.start+sp]+"-", l[cd.start+sp:])
+		nl = append(nl, lines[cd.line+1:]...)
+		at := cd.line + 2 + gap
+		if at > len(nl) {
+			at = len(nl)
+		}
+		el2 := eligibleLines(nl)
+		for at < len(nl) && !(el2[at] && (at == 0 || el2[at-1] || at == cd.line+2)) {
+			at++
+		}
+		nl2, _ := insertLine(nl, at, tmpl)
+		lm := make([]int, len(lines)+2) // old line -> new line (the split line maps to its first half)
+		for i := range lm {
+			n := i
+			if i > cd.line+1 {
+				n++
+			}
+			if n-1 >= at {
+				n++
+			}
+			lm[i] = n
+		}
+		e := c06Edit{LineMap: lm, ID: fmt.Sprintf("splitnotice:line%d:%q@%d+%q@line%d", cd.line, l[cd.start:cd.end], sp, tmpl, at), Text: strings.Join(nl2, "\n"), NoLines: true, NoticeLine: at + 1, SplitLine: cd.line + 1}
+		if docFirst >= 0 && at > docFirst+1 && at <= docLast+1 {
+			e.Class = "copyright-inside-license-range"
+		}
+		return e
 	case "spelling":
 		pairs := c06SpellingPairs()
 		p := pairs[r.Choose(len(pairs), "pair")]
@@ -350,7 +412,7 @@ func c06SpellingPairs() [][2]string {
 	return out
 }
 
-var c06Kinds = []string{"notice", "date", "marker", "split", "spelling", "https"}
+var c06Kinds = []string{"notice", "date", "marker", "split", "spelling", "https", "splitnotice"}
 
 // c06Compare checks an edit against the base result.
 func c06Compare(cl *Classifier, base string, r0 Results, e c06Edit) (msg string, onlyNoticeMissing bool) {
@@ -514,7 +576,7 @@ func c06Key(id, class string, onlyNotice bool) string {
 
 // c06Tokens: tokenizer level over short texts built from token classes.
 func c06Tokens(c *vrep.Ctx) {
-	syms := []string{"alpha", "Beta", "licence", "organization", "1.", "a)", "iv.", "2.0", "http://x.y/z", "(c)", "\n", "copyright 2000 x\n", "foobar-\n"}
+	syms := []string{"alpha", "Beta", "licence", "organization", "1.", "a)", "iv.", "2.0", "http://x.y/z", "(c)", "\n", "copyright 2000 x\n", "foobar-\n", "gamma\n"}
 	maxLen := c.Pick(4, 5)
 	c.R.Rule = fmt.Sprintf("tokenizer level: all texts of <=%d symbols over %q (blank separated) x every C06 edit (each notice/date template at each line gap, each marker on one/all eligible lines, every split point of every long word, every applicable spelling pair, http/https); the (word) sequences must be equal, lines mapped, inserted notices produce a Copyright pseudo-match on their line; non-trivial = distinct (text, edit) pairs", maxLen, syms)
 	c.Bound("max_symbols", maxLen)
